@@ -17,8 +17,11 @@ import time
 VERIF = os.path.dirname(os.path.dirname(os.path.abspath(__file__)))
 REPO = os.environ.get('VERIF_REPO', '/repo')
 SPEC = os.path.join(VERIF, 'spec')
-EVIDENCE = os.path.join(VERIF, 'evidence')
-REPLAYS = os.path.join(VERIF, 'replays')
+# VERIF_OUT redirects evidence and replay files (used when a check is pointed at a scratch tree
+# that is not /repo, e.g. a seeded change: what it writes is not evidence about /repo)
+_OUT = os.environ.get('VERIF_OUT') or VERIF
+EVIDENCE = os.path.join(_OUT, 'evidence')
+REPLAYS = os.path.join(_OUT, 'replays')
 KNOWN_FINDINGS = os.path.join(VERIF, 'known_findings.json')
 NCPU = min(16, os.cpu_count() or 1)
 
